@@ -205,3 +205,13 @@ Proof.
   apply (rule_certificate_transfer (big_rule E F xs ws) d (IZR en / IZR ed)); [|exact Hl].
   apply cert_check_big_sound; assumption.
 Qed.
+
+Lemma transfer_scale : forall a b : R, tr_u a b = (b - a) / 2 /\ tr_M a b = Rmax (Rabs a) (Rabs b).
+Proof. intros a b; split; [reflexivity | apply tr_M_max]. Qed.
+
+(* non-vacuity: the midpoint rule {(0, 2)} is certified to degree 1 with eps = 0 *)
+Lemma cert_example : cert_check_big 0 0 1 0 1 (BigZ.zero :: nil) (BigZ.two :: nil) = true.
+Proof. vm_compute. reflexivity. Qed.
+Lemma cert_example_moments : forall k, (k <= 1)%nat ->
+  Rabs (moment (big_rule 0 0 (BigZ.zero :: nil) (BigZ.two :: nil)) k - leg_moment k) <= IZR 0 / IZR 1.
+Proof. apply cert_check_big_sound; [discriminate | discriminate | reflexivity | exact cert_example]. Qed.
